@@ -1058,6 +1058,7 @@ fn kind_units(rng: &mut Rng, kind: Kind, n: usize) -> Vec<Vec<u8>> {
 /// C14, implementation only (the model's first-seen numbering is quadratic, too slow for this size):
 /// more than 2^16 distinct tokens — the integer mapping must still be wide enough
 fn many_distinct_tokens(ctx: &mut Ctx) {
+    // (a) more than 65536 distinct tokens on each side
     let n = 66_000usize;
     let old: String = (0..n).map(|i| format!("{}\n", i)).collect();
     let mut new_lines: Vec<String> = (0..n).map(|i| format!("{}\n", i)).collect();
@@ -1066,17 +1067,34 @@ fn many_distinct_tokens(ctx: &mut Ctx) {
     new_lines.remove(65_990);
     let new: String = new_lines.concat();
     let req = format!("text lines str myers - - | <{} distinct lines> | <2 edits + 1 deletion> | - | -", n);
+    distinct_tokens_case(ctx, Algorithm::Myers, &req, &old, &new);
+    // (b) fewer than 65535 tokens on each side, more than 65536 distinct tokens on the two sides together
+    let n = 65_000usize;
+    let old: String = (0..n).map(|i| format!("{}\n", i)).collect();
+    let new: String = (0..n).map(|i| if i % 100 == 7 { format!("n{}\n", i) } else { format!("{}\n", i) }).collect();
+    let req = format!("text lines str patience - - | <{} distinct lines> | <every 100th line replaced by a fresh one: 65650 distinct lines in all> | - | -", n);
+    distinct_tokens_case(ctx, Algorithm::Patience, &req, &old, &new);
+}
+
+fn distinct_tokens_case(ctx: &mut Ctx, alg: Algorithm, req: &str, old: &str, new: &str) {
     let r = catch_unwind(AssertUnwindSafe(|| {
-        let diff = TextDiff::configure().algorithm(Algorithm::Myers).diff_lines(&old[..], &new[..]);
-        let direct = similar::capture_diff_slices(Algorithm::Myers, diff.old_slices(), diff.new_slices());
-        (diff.ops().to_vec(), direct)
+        let diff = TextDiff::configure().algorithm(alg).diff_lines(old, new);
+        let direct = similar::capture_diff_slices(alg, diff.old_slices(), diff.new_slices());
+        let bad_equal = diff.ops().iter().any(|op| match *op {
+            DiffOp::Equal { old_index, new_index, len } => (0..len).any(|t| diff.old_slices()[old_index + t] != diff.new_slices()[new_index + t]),
+            _ => false,
+        });
+        (diff.ops().to_vec(), direct, bad_equal)
     }));
     ctx.count("text.many_distinct_tokens_cases");
     match r {
-        Err(_) => ctx.violation("C14", &req, "text diff over more than 65536 distinct tokens panicked".to_string()),
-        Ok((ops, direct)) => {
+        Err(_) => ctx.violation("C14", req, "text diff over more than 65536 distinct tokens panicked".to_string()),
+        Ok((ops, direct, bad_equal)) => {
+            if bad_equal {
+                ctx.violation("C14", req, "an Equal op covers tokens that are not equal (two items got one number)".to_string());
+            }
             if ops != direct {
-                ctx.violation("C14", &req, format!("ops differ from capture_diff_slices on the token slices ({} vs {} ops)", ops.len(), direct.len()));
+                ctx.violation("C14", req, format!("ops differ from capture_diff_slices on the token slices ({} vs {} ops)", ops.len(), direct.len()));
             }
         }
     }
@@ -1147,6 +1165,49 @@ pub fn suite_text(ctx: &mut Ctx) {
         let c = TextCfg { kind: Kind::DIFF[(i % 5) as usize], alg: ALGS[((i / 5) % 3) as usize], nlt: NLTS[((i / 15) % 3) as usize], dl: None };
         ctx.count("text.random_pairs");
         text_pair(ctx, &c, &old, &new, i);
+    }
+    // a shared head of more than 100 tokens followed by short tails that repeat tokens of the head: what is unique
+    // in a tail alone is not unique in the whole text (C14: the text diff is the diff of ALL the tokens)
+    for alg in ALGS {
+        for j in 0..(nbig * 2) as u64 {
+            if !ctx.take() {
+                continue;
+            }
+            let mut rng = case_rng(ctx, 0x4ead + alg as u64, j);
+            let chars = j % 2 == 1;
+            let tok = |t: u32| -> Vec<u8> {
+                // t < 4: the letters that recur; otherwise a distinct token
+                if chars {
+                    char::from_u32(if t < 4 { 'a' as u32 + t } else { 0x100 + t }).unwrap().to_string().into_bytes()
+                } else if t < 4 {
+                    format!("{}\n", ["x", "a", "b", "c"][t as usize]).into_bytes()
+                } else {
+                    format!("h{}\n", t).into_bytes()
+                }
+            };
+            let n = rng.range(101, 125);
+            let mut head: Vec<u32> = (0..n as u32).map(|i| 10 + i).collect();
+            for t in 0..rng.range(1, 3) as u32 {
+                let at = rng.below(head.len());
+                head[at] = t; // letter t occurs once in the head
+            }
+            let mut tail = |rng: &mut Rng| -> Vec<u32> {
+                let mut v: Vec<u32> = (0..rng.range(2, 4)).map(|_| 1 + rng.below(2) as u32).collect();
+                let at = rng.below(v.len() + 1);
+                v.insert(at, 0);
+                if rng.chance(1, 3) {
+                    let at = rng.below(v.len() + 1);
+                    v.insert(at, 3);
+                }
+                v
+            };
+            let (to, tn) = (tail(&mut rng), tail(&mut rng));
+            let old: Vec<Vec<u8>> = head.iter().chain(to.iter()).map(|&t| tok(t)).collect();
+            let new: Vec<Vec<u8>> = head.iter().chain(tn.iter()).map(|&t| tok(t)).collect();
+            let c = TextCfg { kind: if chars { Kind::Chars } else { Kind::Lines }, alg, nlt: NLTS[(j % 3) as usize], dl: None };
+            ctx.count("text.long_shared_head_cases");
+            text_pair(ctx, &c, &concat(&old), &concat(&new), j);
+        }
     }
     // both sides of the 100-token switch (C14)
     for kind in Kind::DIFF {
@@ -2005,32 +2066,93 @@ pub fn suite_inline(ctx: &mut Ctx) {
         ctx.count("inline.random_pairs");
         inline_pair_mode(ctx, ALGS[(i % 3) as usize], mode, &old, &new, &dls);
     }
-    // outside C16's quantifier (not emitted, statistics only): [u8] lines with broken UTF-8.
-    // On the pinned tree MultiLookup measures offsets with the lengths of the static U+FFFD tokens that
-    // [u8]::tokenize_unicode_words returns (the C06 defect), so the inline expansion slices out of range.
-    for i in 0..200u64 {
+    // lines of more than 100 word tokens (a Replace block above any size threshold an implementation may have):
+    // one word dropped, added or changed, periodic lines getting shorter, blocks of two long lines against one
+    const LW: [&str; 8] = ["foo", "bar", "0", "héllo", "日本", "x", "qux", "é"];
+    let nlong = if ctx.tier == Tier::Quick { 60u64 } else { 600 };
+    for i in 0..nlong {
+        if !ctx.take() {
+            continue;
+        }
+        let mut rng = case_rng(ctx, 0x1047e, i);
+        let nwords = rng.range(52, 70);
+        let periodic = i % 4 == 0;
+        let mut line: Vec<String> = (0..nwords).map(|_| if periodic { "0".to_string() } else { LW[rng.below(LW.len())].to_string() }).collect();
+        let term = ["\n", "\r\n", "\r", ""][rng.below(4)];
+        let join = |ws: &[String], term: &str| -> Vec<u8> { format!("{}{}", ws.join(" "), term).into_bytes() };
+        let old_line = join(&line, term);
+        for _ in 0..rng.range(1, 3) {
+            let at = rng.below(line.len());
+            match rng.below(3) {
+                0 => {
+                    line.remove(at);
+                }
+                1 => line.insert(at, LW[rng.below(LW.len())].to_string()),
+                _ => line[at] = LW[rng.below(LW.len())].to_string(),
+            }
+        }
+        let new_line = join(&line, if rng.chance(1, 4) { "\n" } else { term });
+        let (mut old, mut new) = (b"same\n".to_vec(), b"same\n".to_vec());
+        old.extend_from_slice(&old_line);
+        new.extend_from_slice(&new_line);
+        if i % 5 == 0 && term != "" {
+            // a second long line on one side only
+            old.extend_from_slice(&join(&line[..line.len() / 2].to_vec(), "\n"));
+        }
+        if rng.chance(1, 2) {
+            std::mem::swap(&mut old, &mut new);
+        }
+        let mode = if i % 2 == 0 { Mode::Str } else { Mode::Bytes };
+        ctx.count("inline.long_line_pairs");
+        inline_pair_mode(ctx, ALGS[(i % 3) as usize], mode, &old, &new, &[None, Some(0)]);
+    }
+    // [u8] lines with broken UTF-8 (handled since the [u8] Unicode tokenizers report real offsets): random positions,
+    // and in particular inside the changed tail of a line that ends in \r\n, \n, \r or nothing
+    let nbad = if ctx.tier == Tier::Quick { 400u64 } else { 4000 };
+    for i in 0..nbad {
         if !ctx.take() {
             continue;
         }
         let mut rng = case_rng(ctx, 0xbad17, i);
-        let (old, new) = random_inline_pair(&mut rng);
-        let spoil = |rng: &mut Rng, mut t: Vec<u8>| -> Vec<u8> {
-            for _ in 0..rng.range(1, 3) {
-                let at = rng.below(t.len() + 1);
-                t.insert(at, [0xffu8, 0xfe, 0xc3, 0x80][rng.below(4)]);
+        const BADB: [&[u8]; 6] = [&[0xff], &[0xe9], &[0xc3], &[0xe2, 0x82], &[0xf0, 0x9f, 0x98], &[0x80]];
+        let (old, new) = if i % 2 == 0 {
+            let (old, new) = random_inline_pair(&mut rng);
+            let spoil = |rng: &mut Rng, mut t: Vec<u8>| -> Vec<u8> {
+                for _ in 0..rng.range(1, 3) {
+                    let at = rng.below(t.len() + 1);
+                    let b = BADB[rng.below(BADB.len())];
+                    t.splice(at..at, b.iter().copied());
+                }
+                t
+            };
+            (spoil(&mut rng, old), spoil(&mut rng, new))
+        } else {
+            // "<shared words> <word><bad bytes><term>" against the same line with another last word / terminator
+            let nl = rng.range(1, 3);
+            let mut old = vec![];
+            let mut new = vec![];
+            for _ in 0..nl {
+                let head = ["a b ", "un café ", "x ", ""][rng.below(4)];
+                let mk = |rng: &mut Rng| -> Vec<u8> {
+                    let mut l = head.as_bytes().to_vec();
+                    l.extend_from_slice(["caf", "th", "na", "x"][rng.below(4)].as_bytes());
+                    if rng.chance(3, 4) {
+                        l.extend_from_slice(BADB[rng.below(BADB.len())]);
+                    }
+                    l.extend_from_slice(["\r\n", "\r\n", "\n", "\r", ""][rng.below(5)].as_bytes());
+                    l
+                };
+                let lo = mk(&mut rng);
+                let ln = if rng.chance(1, 5) { lo.clone() } else { mk(&mut rng) };
+                old.extend_from_slice(&lo);
+                if !rng.chance(1, 6) {
+                    new.extend_from_slice(&ln);
+                }
             }
-            t
+            (old, new)
         };
-        let (old, new) = (spoil(&mut rng, old), spoil(&mut rng, new));
-        let mut scratch = scratch_ctx();
-        inline_pair_mode(&mut scratch, ALGS[(i % 3) as usize], Mode::Bytes, &old, &new, &[None]);
-        ctx.count("inline.out_of_scope.invalid_utf8.pairs");
-        let panics = scratch.violations.iter().filter(|v| v.detail.contains("panicked")).count();
-        if panics > 0 {
-            ctx.count("inline.out_of_scope.invalid_utf8.pairs_with_a_panicking_op");
-        } else if !scratch.violations.is_empty() {
-            ctx.count("inline.out_of_scope.invalid_utf8.pairs_with_a_wrong_expansion");
-        }
+        ctx.count("inline.invalid_utf8_pairs");
+        inline_pair_mode(ctx, ALGS[(i % 3) as usize], Mode::Bytes, &old, &new, &[None, Some(0)]);
     }
 }
 
@@ -2760,6 +2882,60 @@ fn determinism_case(ctx: &mut Ctx, c: &Case, workers: &Workers, fresh_threads: b
     ctx.max("determinism.max_len", (c.old.len() + c.new.len()) as u64);
 }
 
+/// Thousands of unique items per side and several equally good diffs (blocks that changed places): implementation
+/// only, every run must give the ops of the first one.
+fn big_determinism_cases(ctx: &mut Ctx, workers: &Workers) {
+    let halves: &[u32] = if ctx.tier == Tier::Quick { &[3000, 5000] } else { &[3000, 5000, 9000, 20000] };
+    for &half in halves {
+        for alg in [Algorithm::Patience, Algorithm::Myers] {
+            if alg == Algorithm::Myers && half > 3000 {
+                continue;
+            }
+            let a: Vec<u32> = (0..half).collect();
+            let b: Vec<u32> = (half..2 * half).collect();
+            let old: Vec<u32> = a.iter().chain(b.iter()).copied().collect();
+            let new: Vec<u32> = b.iter().chain(a.iter()).copied().collect();
+            let c = Case::full(alg, &old, &new);
+            let req = format!("capture {} - 0 | <blocks A B of {} distinct items each> | <B A> | 0 {} 0 {}", alg_name(alg), half, old.len(), new.len());
+            ctx.count("determinism.big_cases");
+            let ops = match run_capture(&c).ops {
+                Some(o) => o,
+                None => {
+                    ctx.violation("C20", &req, "capture_diff panicked".to_string());
+                    continue;
+                }
+            };
+            let show = |g: &Option<Vec<Call>>| match g {
+                None => "a panic".to_string(),
+                Some(g) => {
+                    let s = proto::show_calls(g);
+                    if s.len() > 120 { format!("{}.. ({} ops)", &s[..120], g.len()) } else { s }
+                }
+            };
+            let mut runs: Vec<(String, Option<Vec<Call>>)> = vec![];
+            for k in 0..3 {
+                runs.push((format!("repeated run {}", k + 1), run_capture(&c).ops));
+            }
+            for (k, got) in workers.run(&c).into_iter().enumerate() {
+                runs.push((format!("a run in spawned thread {}", k + 1), got));
+            }
+            let mut salted = c.clone();
+            salted.salt = 0x5a17 + half;
+            runs.push(("a run with differently hashing items".to_string(), run_capture(&salted).ops));
+            let mut relabelled = c.clone();
+            relabelled.old = c.old.iter().map(|x| 7 * x + 3).collect();
+            relabelled.new = c.new.iter().map(|x| 7 * x + 3).collect();
+            runs.push(("the relabelling x -> 7x+3".to_string(), run_capture(&relabelled).ops));
+            for (what, got) in runs {
+                if got.as_ref() != Some(&ops) {
+                    ctx.violation("C20", &req, format!("{} gives {} instead of {}", what, show(&got), show(&Some(ops.clone()))));
+                    break;
+                }
+            }
+        }
+    }
+}
+
 pub fn suite_determinism(ctx: &mut Ctx) {
     let (k, l, nrand, maxsz) = match ctx.tier {
         Tier::Quick => (3, 4, 3000u64, 80),
@@ -2767,6 +2943,9 @@ pub fn suite_determinism(ctx: &mut Ctx) {
     };
     let seqs = gen::all_seqs(k, l);
     let workers = Workers::new(2);
+    if ctx.take() {
+        big_determinism_cases(ctx, &workers);
+    }
     let mut j = 0u64;
     for alg in ALGS {
         for old in &seqs {
